@@ -1107,10 +1107,22 @@ def problem_updates(ctx):
     direct = any(isinstance(c, ast.Call) and
                  unparse(c.func).endswith('.optic.update')
                  for c in ast.walk(f.node))
-    updates = any(isinstance(c, ast.Call) and isinstance(
-        c.func, ast.Attribute) and c.func.attr == 'update' and not c.args
+    def uncond(stmts):
+        """calls executed on every pass: statements of the loop body itself
+        (and of nested for / with), not those under a condition"""
+        for st in stmts:
+            if isinstance(st, (ast.For, ast.With)):
+                yield from uncond(st.body)
+            elif isinstance(st, (ast.Expr, ast.Assign)):
+                yield from (c for c in ast.walk(st) if isinstance(c, ast.Call))
+    updates = any(isinstance(c.func, ast.Attribute) and
+                  c.func.attr == 'update' and not c.args
+                  for lp in ast.walk(f.node) if isinstance(lp, ast.For)
+                  for c in uncond(lp.body))
+    direct = direct and any(
+        unparse(c.func).endswith('.optic.update')
         for lp in ast.walk(f.node) if isinstance(lp, ast.For)
-        for c in ast.walk(lp))
+        for c in uncond(lp.body))
     if (collects and updates) or direct:
         res.ok('update_optics: optic.update() for the optic of every variable')
     else:
